@@ -126,6 +126,22 @@ def cases(rng, tier):
                     case = mk(0, b, c, pattern, "app.log", [], ops)
                     case[5] = [[var, v1]]
                     out.append(case)
+    # the process changes its working directory between building the roller and rolling, and between two rolls: a
+    # relative pattern (and the relative log path) is resolved against the directory of the moment
+    for pattern in ("a.{}.log", "arch/a.{}.log", "z/a.{}.gz", "{}/a.log"):
+        for b in (0, 1):
+            for c in (1, 2, 3):
+                for seq in ((["w"], 0), (["w", ""], 1), (["deep/er", "w"], 2)):
+                    dirs, first_at = seq
+                    ops = []
+                    k = 0
+                    for j in range(c + 3):
+                        if j == first_at and k < len(dirs):
+                            ops.append([4, dirs[k]]); k += 1
+                        elif j == first_at + 2 and k < len(dirs):
+                            ops.append([4, dirs[k]]); k += 1
+                        ops.append([1, b"c%d;" % j])
+                    out.append(mk(0, b, c, pattern, "app.log", [], ops))
     # the archive directory is removed by somebody else between two rolls of one roller (also of a clone of it - the
     # harness uses clones every other case): the next roll creates it again, as the first one did
     for (pattern, d) in (("arch/a.{}.log", "arch"), ("deep/er/a.{}.gz", "deep"), ("deep/er/a.{}.log", "deep/er"),
@@ -223,7 +239,7 @@ def describe(c):
             "env": env, "file": file,
             "initial_files": [p if isinstance(p, str) else p.decode() for p, _ in init],
             "ops": ["roll" if o[0] == 0 else "setenv %s=%s" % (o[1], o[2]) if o[0] == 2 else "somebody removes directory %s" % o[1]
-                    if o[0] == 3 else "write %r + roll" % bytes(o[1]) for o in ops]}
+                    if o[0] == 3 else "chdir to <root>/%s" % o[1] if o[0] == 4 else "write %r + roll" % bytes(o[1]) for o in ops]}
 
 
 def extra_checks(ctx, cases, impl_lines, model_lines):
